@@ -21,7 +21,7 @@ from checks import c13_core as core
 PROPERTY = 'C13'
 HASHSEED_INDEPENDENT = False
 
-_VQ = ['copy_shares_prevs', 'decr_id_off_by_one', 'incr_id_ignores_depth', 'find_goal_ignores_hyps',
+_VQ = ['copy_shares_subproof', 'decr_id_off_by_one', 'incr_id_ignores_depth', 'find_goal_ignores_hyps',
        'state_copy_shares_proof']
 TIERS = {
     'quick': dict(fork=True, worlds=16, runs=6, batch=1, det_runs=2, soft_timeout=420,
@@ -885,7 +885,7 @@ def _ps(owner, name, old, new):
 
 def _v_copy_prevs():
     from kernel import proof
-    _ps(proof.ProofItem, '__copy__', "copy.copy(self.prevs)", "self.prevs")
+    _ps(proof.ProofItem, '__copy__', "res.subproof = copy.copy(self.subproof)", "res.subproof = self.subproof")
 
 
 def _v_decr():
@@ -916,6 +916,7 @@ def _v_replace_id():
 
 
 def _v_export_prevs():
+    import logic.basic  # noqa (import order)
     from syntax import printer
     _ps(printer, 'export_proof_item', "'prevs': [str(prev) for prev in item.prevs]}", "'prevs': [str(prev) for prev in item.prevs[:2]]}")
 
@@ -926,7 +927,7 @@ def _v_trivial():
 
 
 VARIANTS = {
-    'copy_shares_prevs': _v_copy_prevs,
+    'copy_shares_subproof': _v_copy_prevs,
     'decr_id_off_by_one': _v_decr,
     'incr_id_ignores_depth': _v_incr,
     'find_goal_ignores_hyps': _v_find_goal,
